@@ -96,7 +96,7 @@ CLAIMED.update({
 })
 
 CLAIMED.update({
-    "C17": ("Mirror, MCMirror, MirrorTrace, TraceBase",
+    "C17": ("Mirror, MCMirror, MirrorTrace, DrfPipeline, MCDrfPipeline, DrfPipelineTrace, TraceBase",
             "E1: TLC explores the mirror's own file-system operations (mkdirs/cmp, stage under tmp., rename, removal, rmdir) for the three handler "
             "roles over 2 RF + 2 metadata files + properties with each event delivered up to twice in any order, stale events, a crash "
             "between any two operations and a restart, copy/move/link, same and different file systems, checking Staged, NoLossMove, "
@@ -105,7 +105,10 @@ CLAIMED.update({
             "recordings x 8 method variants x event histories with duplication, reordering, stale events, a crash before every operation "
             "(move) or sampled (copy/link) incl. half-copied tmp and forced EXDEV; every operation is one trace event with both trees "
             "projected (sha1 per path) and TLC validates order and invariants after each; a DigitalRFReader on the destination is compared "
-            "with the source.",
+            "with the source. Composition (DrfPipeline): TLC explores a live recording whose files are moved to an archive while it "
+            "goes on (writer operations x lossy event queue x event filter x mirror operations x mirror crash/restart x archive "
+            "reader, safety and a liveness property under weak fairness); real recordings under the LD_PRELOAD interposer feed a "
+            "real move-mode DigitalRFMirror and TLC validates every handler activation.",
             "Trusted: TLC, wrappers around os.rename/link/makedirs/rmdir/remove, shutil.copy2/move, filecmp.cmp installed in the harness "
             "process (one event per mirror operation, crash = exception raised before operation i), sha1 projection of both trees. Events "
             "are dispatched synchronously; real inotify delivery and the observer thread are not exercised.",
